@@ -241,6 +241,18 @@ class SB:
         k = _pow256(o)
         return self & ((1 << (8 * k)) - 1) if k is not None else self._opaque('%', o)
 
+    ABSTRACT_METHODS = ('to_bytes',)
+
+    def to_bytes(self, length, byteorder='big'):
+        """int.to_bytes: raises OverflowError when the value needs more than `length` bytes"""
+        n = _addr(length)
+        if byteorder not in ('little', 'big'):
+            raise Raised('ValueError: byteorder')
+        if len(self.b) > n:
+            raise Raised(f"OverflowError: int too big to convert (a value with {len(self.b)} significant bytes into {n} byte(s))")
+        out = list(self.b) + [0] * (n - len(self.b))
+        return ByteSeq(out if byteorder == 'little' else out[::-1])
+
     def __eq__(self, o):
         return isinstance(o, SB) and self.b == o.b
 
@@ -257,23 +269,88 @@ class SB:
         return 'SB[' + ','.join(str(x) for x in self.b) + ']'
 
 
+class ByteSeq(list):
+    """a bytes object whose elements are byte terms"""
+
+
+def int_from_bytes(seq, byteorder='big'):
+    if not isinstance(seq, (list, tuple)):
+        raise AnalysisError("int.from_bytes of a value outside the symbolic byte domain")
+    if byteorder not in ('little', 'big'):
+        raise Raised('ValueError: byteorder')
+    return SB(list(seq) if byteorder == 'little' else list(seq)[::-1])
+
+
 class SymMem:
     """abstract byte array: address -> byte term; loads of unknown cells give a fresh term; stores are logged"""
     def __init__(self, init=None):
         self.cells = dict(init or {})
         self.stores = []          # (addr, SB value)
 
+    ABSTRACT_METHODS = ()
+
+    def _range(self, idx):
+        if idx.step is not None or idx.start is None or idx.stop is None:
+            raise AnalysisError("byte-array slice outside the abstract domain")
+        return _addr(idx.start), _addr(idx.stop)
+
     def load(self, addr):
+        if isinstance(addr, slice):
+            lo, hi = self._range(addr)
+            return ByteSeq(self.cells.get(a, ('cell', a)) for a in range(lo, max(lo, hi)))
         a = _addr(addr)
         return SB([self.cells.get(a, ('cell', a))])
 
     def store(self, addr, value):
+        if isinstance(addr, slice):
+            lo, hi = self._range(addr)
+            if not isinstance(value, (list, tuple)):
+                raise AnalysisError("slice store of a value outside the symbolic byte domain")
+            if len(value) != max(0, hi - lo):
+                raise Raised(f"the slice [{lo}:{hi}] is assigned {len(value)} byte(s): the bytearray is resized, all later bytes move")
+            for k, t in enumerate(value):
+                self.stores.append((lo + k, SB([t])))
+                self.cells[lo + k] = t
+            return
         a = _addr(addr)
         v = SB.of(value)
         self.stores.append((a, v))
         if len(v.b) > 1:
             raise Raised(f"ValueError: byte must be in range(0, 256): cell {a} <- {v!r}")
         self.cells[a] = v.b[0] if v.b else 0
+
+
+class MemView(SymMem):
+    """memoryview(arr) / memoryview(arr).cast(fmt): item i of a view with itemsize k is the little-endian integer made of bytes
+    k*i .. k*i+k-1 of the underlying image (native little-endian host, standard sizes B/H/I/Q)"""
+    ABSTRACT_METHODS = ('cast',)
+    SIZES = {'B': 1, 'b': 1, 'H': 2, 'I': 4, 'L': 8, 'Q': 8}
+
+    def __init__(self, mem, size=1):
+        if not isinstance(mem, SymMem) or isinstance(mem, MemView):
+            raise AnalysisError("memoryview of a value outside the abstract domain")
+        self.mem, self.size = mem, size
+
+    def cast(self, fmt, *shape):
+        if shape or fmt not in self.SIZES or fmt == 'b':
+            raise AnalysisError(f"memoryview.cast({fmt!r}) outside the abstract domain")
+        return MemView(self.mem, self.SIZES[fmt])
+
+    def load(self, idx):
+        if isinstance(idx, slice):
+            raise AnalysisError("memoryview slice outside the abstract domain")
+        i = _addr(idx)
+        return SB([self.mem.cells.get(a, ('cell', a)) for a in range(i * self.size, (i + 1) * self.size)])
+
+    def store(self, idx, value):
+        if isinstance(idx, slice):
+            raise AnalysisError("memoryview slice outside the abstract domain")
+        i = _addr(idx)
+        v = SB.of(value)
+        if len(v.b) > self.size:
+            raise Raised(f"ValueError: memoryview item of {self.size} byte(s) <- a value with {len(v.b)} significant bytes")
+        for k in range(self.size):
+            self.mem.store(i * self.size + k, SB([v.b[k]]) if k < len(v.b) else 0)
 
 
 def _addr(a):
@@ -395,9 +472,16 @@ class Interp(Evaluator):
         raise AnalysisError(f"call of a non-function value {fn!r}")
 
     def ev_Call(self, e):
+        name = cnorm(e.func)
+        if isinstance(e.func, ast.Attribute) and name not in self.funcs and e.func.attr not in self.METHODS:
+            base = self.ev(e.func.value)
+            if e.func.attr in getattr(base, 'ABSTRACT_METHODS', ()):
+                if any(k.arg is None for k in e.keywords):
+                    raise AnalysisError(f"keyword call outside the abstract domain: {norm(e)}")
+                return getattr(base, e.func.attr)(*[self.ev(a) for a in e.args], **{k.arg: self.ev(k.value) for k in e.keywords})
+            raise AnalysisError(f"method call outside the abstract domain: {norm(e)}")
         if e.keywords:
             raise AnalysisError(f"keyword call outside the abstract domain: {norm(e)}")
-        name = cnorm(e.func)
         if name in self.funcs:
             return self.apply(self.funcs[name], [self.ev(a) for a in e.args])
         if isinstance(e.func, ast.Attribute) and e.func.attr in self.METHODS:
